@@ -28,6 +28,7 @@ fam!(FArr, Arr<'gc>);
 fam!(FSlice, [Elem<'gc>]);
 fam!(FStr, str);
 fam!(FSwh, Swh<'gc>);
+fam!(FSwa, Swa<'gc>);
 fam!(FZ1, Z1);
 fam!(FZ2, Z2);
 fam!(FZ4, Z4);
